@@ -11,6 +11,7 @@ import sys
 sys.path.insert(0, os.path.join(os.path.dirname(os.path.abspath(__file__)), '..'))
 from common import Check, coqc_file, COQ
 from harness import solver_toy as T
+from props import t_C04
 from fractions import Fraction
 
 
@@ -105,7 +106,10 @@ def main():
                'validation/training batches so that equal losses recur while the weights move (forced ties) and scripted batches '
                'make the loss non-monotone; distinct = distinct (label, configuration); every recorded value is compared with the Coq model')
     ck.step_hygiene()
-    ck.step_prove('P_C05')
+    # regenerate coq/gen/Gen_C04.v from the current solvers.py (fail-closed); P_C05 proves the generated
+    # definitions equal to the model's, so a source change that alters them breaks the proof
+    if t_C04.step_generate(ck):
+        ck.step_prove('P_C05')
     ok, _ = coqc_file(os.path.join(COQ, 'findings', 'F_C05_closure.v'), timeout=120)
     ck.notes.append('findings/F_C05_closure.v (refutation witness of a recorded finding) ' + ('compiles' if ok else 'no longer compiles'))
     camp = T.Campaign(ck, 'C05', oracle)
